@@ -571,6 +571,16 @@ func (w *World) exec(op Op) StepResult {
 			w.pools[p] = poolInfo{live: true, p: pool, typ: A(1), flags: A(2), blockSize: A(3), minBlocks: A(4), maxBlocks: A(5), minAlign: A(6)}
 		}
 		return result(res, err)
+	case "mkpoolp":
+		p := A(0)
+		if p < 0 || p >= maxPools || w.pools[p].live {
+			return skip()
+		}
+		pool, res, err := w.alloc.CreatePool(vam.PoolCreateInfo{MemoryTypeIndex: A(1), BlockSize: A(2), MinBlockCount: A(3), Priority: float32(A(4)) / 1000})
+		if err == nil {
+			w.pools[p] = poolInfo{live: true, p: pool, typ: A(1), blockSize: A(2), minBlocks: A(3)}
+		}
+		return result(res, err)
 	case "rmpool":
 		p := A(0)
 		if p < 0 || p >= maxPools || !w.pools[p].live {
